@@ -205,6 +205,10 @@ def run_c01(pid, tier):
     # the leading run of whitespace and comments after the declaration is dropped, nothing else
     for lead_ws in ["", " ", "\n\n", "@* c *@", " @**@ \r\n\t", "@* a *@@* b *@"]:
         extra.append(dict(canon=("@use super::wrap_html;\n@(" + DECL + ")" + lead_ws + "x  y\n @* c *@ z \n").encode(), perts=[], expect=[b"x  y\n  z \n"] * 3, items=None))
+    # only blank, tab, CR, LF and comments are layout: a form feed, a vertical tab, NUL, 0x1f, 0x7f, NBSP after the declaration are text, and end the trimmed run
+    for lead, kept in [("\x0c\n  z", "\x0c\n  z"), (" \n\x0c\n z", "\x0c\n z"), ("\x0b", "\x0b"), ("\n\x00", "\x00"), (" \x1f ", "\x1f "), ("\n\x7f", "\x7f"), ("\n\u00a0 ", "\u00a0 "),
+                       ("@* c *@\x0c@* d *@ ", "\x0c ")]:
+        extra.append(dict(canon=("@use super::wrap_html;\n@(" + DECL + ")" + lead + "|x").encode(), perts=[], expect=[(kept + "|x").encode()] * 3, items=None))
     return suite(pid, tier, mk, n, extra_cases=extra,
                  rule="bodies whose literal text ranges over all 128 ASCII code points (each forced to appear) and multi-byte scalars (U+0080, U+07FF, U+0800, U+FFFF, U+10000, U+10FFFF, Grapheme_Extend, unprintable), "
                       "interleaved with @@ @{ @} escapes, comments (bodies over {*,@,space,x,LF} exhaustive to length %d) and directives at every nesting position (top level, if/for/match bodies, block arguments)." % L)
